@@ -168,6 +168,9 @@ fn oracle_pairs(out: &mut Out, kind: &str, data: &[(f64, f64)], accs: &[Acc]) {
     out.o(kind, &[&pws(data), &stats.join(" ")]);
 }
 
+/// number of weight patterns of `weights`
+pub const WEIGHT_PATTERNS: usize = 10;
+
 pub fn weights(rng: &mut Rng, n: usize, zero_pattern: usize) -> Vec<f64> {
     let mut w: Vec<f64> = (0..n).map(|_| if rng.unit() < 0.2 { 1.0 } else { 10f64.powf(rng.range(-6.0, 6.0)) }).collect();
     match zero_pattern {
@@ -175,6 +178,15 @@ pub fn weights(rng: &mut Rng, n: usize, zero_pattern: usize) -> Vec<f64> {
         2 => for i in 0..(n / 3).max(1).min(n) { w[i] = 0.0 },          // prefix
         3 => for x in w.iter_mut() { if rng.unit() < 0.3 { *x = 0.0 } },  // scattered
         4 => if n > 0 { let i = rng.below(n); w[i] = 0.0 },
+        5 => {                                                          // c(1 +- delta), deviations cancelling in pairs
+            let delta = 2f64.powi(-*rng.pick(&[52, 45, 40, 30, 28, 27, 20, 10]));
+            let c = *rng.pick(&[1.0, 1.0, 1.0, 0.5, 3.0]);
+            for (i, x) in w.iter_mut().enumerate() { *x = if i + 1 == n && n % 2 == 1 { c } else if i % 2 == 0 { c * (1.0 + delta) } else { c * (1.0 - delta) }; }
+        }
+        6 => { let s = *rng.pick(&[1e-18, 1e-100, 2f64.powi(-60), 1e-30]); for x in w.iter_mut() { *x *= s; } }   // all tiny
+        7 => { let s = *rng.pick(&[1e18, 1e100, 2f64.powi(200)]); for x in w.iter_mut() { *x *= s; } }              // all huge
+        8 => { let c = *rng.pick(&[1.0, 0.5, 3.0, 1e-9, 1e-17]); for x in w.iter_mut() { *x = c; } }               // all equal
+        9 => { for (i, x) in w.iter_mut().enumerate() { if i < (n + 1) / 2 { *x *= 1e-20; } } }                    // a tiny-weight prefix
         _ => {}
     }
     if n > 0 && w.iter().all(|x| *x == 0.0) { let l = w.len(); w[l - 1] = 1.0; }
@@ -223,7 +235,7 @@ pub fn c08(out: &mut Out, tier: &str, rng: &mut Rng) {
     weighted_case::<WeightedMean>(out, &PTree::Leaf(vec![(1.0, 0.0), (2.0, 1.0)]), Trace::All, rng);
     weighted_case::<WeightedMeanWithError>(out, &PTree::Leaf(vec![(1.0, 0.0), (2.0, 1.0)]), Trace::All, rng);
     for n in 1..=12usize {
-        for zp in 0..5 {
+        for zp in 0..WEIGHT_PATTERNS {
             for _ in 0..reps {
                 let (xs, _) = dataset(rng, n, 1e9);
                 let ws = weights(rng, n, zp);
@@ -237,7 +249,7 @@ pub fn c08(out: &mut Out, tier: &str, rng: &mut Rng) {
     // all chunkings x trees on short sequences, zero weights at every position (first, prefix, a whole chunk)
     let (max_n, max_k) = if tier == "thorough" { (6, 4) } else { (5, 3) };
     for n in 0..=max_n {
-        for zp in [0usize, 1, 2] {
+        for zp in [0usize, 1, 2, 5, 9] {
             let xs: Vec<f64> = (0..n).map(|i| [1.0, 2.5, -3.0, 1e9 + 1.0, 1e9 + 3.0, 0.0][(i * 5 + n) % 6]).collect();
             let ws = weights(rng, n, zp);
             let data: Vec<(f64, f64)> = xs.iter().cloned().zip(ws.iter().cloned()).collect();
@@ -259,11 +271,12 @@ pub fn c08(out: &mut Out, tier: &str, rng: &mut Rng) {
             weighted_case::<WeightedMeanWithError>(out, &pt, Trace::None, rng);
         }
     }
+    for (d, x) in PHUGE_BASES { phuge_counts::<WeightedMean>(out, d, x); phuge_counts::<WeightedMeanWithError>(out, d, x); }
     let plan: Vec<(usize, usize)> = if tier == "thorough" { vec![(50, 40), (1000, 20), (10_000, 6)] } else { vec![(50, 10), (1000, 5), (10_000, 1)] };
     for (n, count) in plan {
         for c in 0..count {
             let (xs, _) = dataset(rng, n, 1e9);
-            let ws = weights(rng, n, c % 5);
+            let ws = weights(rng, n, c % WEIGHT_PATTERNS);
             let data: Vec<(f64, f64)> = xs.iter().cloned().zip(ws.iter().cloned()).collect();
             let k = 1 + rng.below(7);
             let t = random_ptree(rng, &data, k, c % 4);
@@ -272,6 +285,82 @@ pub fn c08(out: &mut Out, tier: &str, rng: &mut Rng) {
         }
     }
 }
+
+/// counts beyond 2^32 and 2^53 for the pair estimators: repeated self-merges (see `common::huge_counts`)
+pub fn phuge_counts<E: PairEst>(out: &mut Out, data: &[(f64, f64)], extra: &[(f64, f64)]) {
+    if !out.next_case() { return; }
+    let mut e = E::new(); for (a, b) in data { e.add(*a, *b) }
+    let mut small = E::new(); for (a, b) in extra { small.add(*a, *b) }
+    let base = e.accessors();
+    let get = |accs: &[Acc], stat: &str| accs.iter().find(|a| a.stat == stat).map(|a| a.val.f());
+    let n0 = data.len() as f64;
+    let close = |a: f64, b: f64, tol: f64| (a - b).abs() <= tol * (1.0 + a.abs().max(b.abs()));
+    let mut e2 = small.clone();
+    let mut union = E::new(); for (a, b) in data.iter().chain(extra.iter()) { union.add(*a, *b) }
+    let ubase = union.accessors();
+    let mut reps = 1f64;
+    for round in 0..56 {
+        let c = e.clone();
+        let pa = words(&e);
+        e.merge(&c);
+        reps *= 2.0;
+        out.t(E::NAME, "merge", &pa, &pa, &words(&e));
+        { let c2 = e2.clone(); e2.merge(&c2); }
+        {
+            // two huge chunks with different means: the population statistics are those of data ++ extra
+            let mut u = e.clone(); let pu = words(&u); u.merge(&e2); out.t(E::NAME, "merge", &pu, &words(&e2), &words(&u));
+            for a in u.accessors() {
+                if matches!(a.stat, "mean_x" | "mean_y" | "popvar_x" | "popvar_y" | "popcov" | "pearson" | "wmean" | "umean" | "popvar") {
+                    if let (Some(w), Val::F(g)) = (get(&ubase, a.stat), &a.val) {
+                        if w.is_finite() { out.x(close(*g, w, 1e-9), || format!("{}: merge of {:?} x {} with {:?} x {}: {} = {:?}, textbook value {:?}", E::NAME, data, reps, extra, reps, a.op, g, w)); }
+                    }
+                }
+            }
+        }
+        let accs = pobserve(out, &e);
+        let nn = n0 * reps;
+        let bessel = nn / (nn - 1.0);
+        for a in &accs {
+            let b = |s: &str| get(&base, s);
+            let want: Option<f64> = match a.stat {
+                "mean_x" | "mean_y" | "popvar_x" | "popvar_y" | "popcov" | "pearson" | "wmean" | "umean" | "popvar" => b(a.stat),
+                "samplevar_x" => b("popvar_x").map(|v| v * bessel),
+                "samplevar_y" => b("popvar_y").map(|v| v * bessel),
+                "samplecov" => b("popcov").map(|v| v * bessel),
+                "samplevar" => b("popvar").map(|v| v * bessel),
+                "sum_w" | "sum_w_sq" | "eff_len" => b(a.stat).map(|v| v * reps),
+                "varwmean" => match (b("popvar"), b("sum_w"), b("sum_w_sq")) { (Some(v), Some(sw), Some(sww)) => Some(v * bessel * sww / (reps * sw * sw)), _ => None },
+                "werror" => match (b("popvar"), b("sum_w"), b("sum_w_sq")) { (Some(v), Some(sw), Some(sww)) => Some((v * bessel * sww / (reps * sw * sw)).sqrt()), _ => None },
+                _ => None,
+            };
+            if let (Some(w), Val::F(g)) = (want, &a.val) {
+                if w.is_finite() { out.x(close(*g, w, 1e-9), || format!("{}: after {} self-merges of {:?} (count {}), {} = {:?}, textbook value {:?}", E::NAME, round + 1, data, nn, a.op, g, w)); }
+            }
+            if let Val::I(l) = a.val { if a.stat == "len" { out.x(l as f64 == nn, || format!("{}: len() = {} after {} self-merges of {} observations", E::NAME, l, round + 1, data.len())); } }
+        }
+        let mut f = e.clone(); let pre = words(&f); f.add(extra[0].0, extra[0].1);
+        out.t(E::NAME, "add", &pre, &format!("{} {}", fw(extra[0].0), fw(extra[0].1)), &words(&f));
+        let mut g = e.clone(); let pg = words(&g); g.merge(&small); out.t(E::NAME, "merge", &pg, &words(&small), &words(&g));
+        let mut h = small.clone(); let ph = words(&h); h.merge(&e); out.t(E::NAME, "merge", &ph, &words(&e), &words(&h));
+        if round >= 20 {
+            for (nm, s) in [("add", &f), ("merge(short chunk)", &g), ("short chunk.merge", &h)] {
+                for a in s.accessors() {
+                    if matches!(a.stat, "mean_x" | "mean_y" | "popvar_x" | "popvar_y" | "popcov" | "pearson" | "wmean" | "umean" | "popvar" | "samplevar_x" | "samplevar_y" | "samplecov" | "samplevar") {
+                        let w = match a.stat { "samplevar_x" => get(&base, "popvar_x"), "samplevar_y" => get(&base, "popvar_y"), "samplecov" => get(&base, "popcov"), "samplevar" => get(&base, "popvar"), st => get(&base, st) };
+                        if let (Some(w), Val::F(x)) = (w, &a.val) { if w.is_finite() { out.x(close(*x, w, 1e-4), || format!("{}: {} at count {}: {} = {:?}, was {:?}", E::NAME, nm, nn, a.op, x, w)); } }
+                    }
+                }
+            }
+        }
+    }
+    out.note(&format!("{}:huge-counts", E::NAME));
+}
+
+pub const PHUGE_BASES: &[(&[(f64, f64)], &[(f64, f64)])] = &[
+    (&[(1.0, 2.0), (2.0, 1.0), (4.0, 0.5), (8.0, 3.0)], &[(3.0, 1.0), (5.0, 2.0)]),
+    (&[(0.0, 1.0), (0.0, 1.0), (0.0, 1.0), (1.0, 1.0)], &[(0.25, 1.0)]),
+    (&[(-3.0, 0.25), (1.5, 4.0), (2.0, 0.0), (7.0, 1.0), (11.0, 2.0)], &[(2.0, 0.5)]),
+];
 
 // ---------------------------------------------------------------- covariance
 
@@ -343,6 +432,7 @@ pub fn c09(out: &mut Out, tier: &str, rng: &mut Rng) {
             }
         }
     }
+    for (d, x) in PHUGE_BASES { phuge_counts::<Covariance>(out, d, x); }
     let plan: Vec<(usize, usize)> = if tier == "thorough" { vec![(100, 40), (1000, 20), (10_000, 6)] } else { vec![(100, 10), (1000, 5), (10_000, 1)] };
     for (n, count) in plan {
         for c in 0..count {
@@ -357,6 +447,10 @@ pub fn c09(out: &mut Out, tier: &str, rng: &mut Rng) {
 
 // ---------------------------------------------------------------- min / max
 
+/// NaNs of every kind: the default quiet NaN, its negative (what x86 produces for inf - inf), a signalling NaN,
+/// all bits set, a quiet NaN with a payload
+const NANS: &[f64] = &[f64::NAN, f64::from_bits(0xfff8_0000_0000_0000), f64::from_bits(0x7ff0_0000_0000_0001),
+    f64::from_bits(0xffff_ffff_ffff_ffff), f64::from_bits(0x7ff8_0000_dead_beef), f64::from_bits(0xfff0_0000_0000_0001)];
 const MM_ALPHABET: &[f64] = &[f64::NEG_INFINITY, -1.0, -0.0, 0.0, 1.0, f64::INFINITY, f64::NAN];
 
 /// like `eval_tree`, but the leaves are built through every ingestion path in turn (add, collect by value /
@@ -402,7 +496,7 @@ pub fn c14(out: &mut Out, tier: &str, rng: &mut Rng) {
         let total = MM_ALPHABET.len().pow(n as u32);
         for code in 0..total {
             let mut c = code; let mut v = Vec::new();
-            for _ in 0..n { v.push(MM_ALPHABET[c % 7]); c /= 7; }
+            for i in 0..n { let x = MM_ALPHABET[c % 7]; v.push(if x.is_nan() { NANS[(code + i) % NANS.len()] } else { x }); c /= 7; }
             let kmax = if n <= 3 { max_k } else { 2 };
             for k in 1..=kmax {
                 for cuts in compositions(n, k) {
@@ -417,7 +511,7 @@ pub fn c14(out: &mut Out, tier: &str, rng: &mut Rng) {
     // permutations of longer random sequences, from_value
     for _ in 0..(if tier == "thorough" { 300 } else { 60 }) {
         let n = 1 + rng.below(40);
-        let mut v: Vec<f64> = (0..n).map(|_| if rng.unit() < 0.15 { *rng.pick(MM_ALPHABET) } else { rng.normal() * 10f64.powi(rng.below(40) as i32 - 20) }).collect();
+        let mut v: Vec<f64> = (0..n).map(|_| if rng.unit() < 0.15 { *rng.pick(MM_ALPHABET) } else if rng.unit() < 0.08 { *rng.pick(NANS) } else { rng.normal() * 10f64.powi(rng.below(40) as i32 - 20) }).collect();
         for _ in 0..3 {
             rng.shuffle(&mut v);
             let k = 1 + rng.below(5);
@@ -436,5 +530,47 @@ pub fn c14(out: &mut Out, tier: &str, rng: &mut Rng) {
             out.o("min", &[&fws(&v), &fw(a.min())]);
             out.o("max", &[&fws(&v), &fw(b.max())]);
         }
+    }
+    // lengths around the powers of two (a buffered or blocked ingestion path would use such sizes), with the
+    // extreme at the very beginning, the very end, or on either side of a block boundary; every ingestion path
+    for (li, &len) in BLOCK_LENS.iter().enumerate() {
+        if tier != "thorough" && len > 8192 { continue; }
+        for place in 0..4 {
+            if tier != "thorough" && len > 300 && place != li % 4 { continue; }
+            let mut v: Vec<f64> = (0..len).map(|_| rng.normal()).collect();
+            let pos = match place { 0 => 0, 1 => len - 1, 2 => len / 2, _ => len - 1 - rng.below(len.min(1024)) };
+            v[pos] = 50.0; let p2 = (pos + len / 3) % len; if p2 != pos { v[p2] = -50.0; }
+            for path in 0..7 {
+                if !out.next_case() { continue; }
+                let mut k = path + 6;   // eval_tree_mixed increments before use
+                let single = Tree::Leaf(v.clone());
+                let t = if (li + place + path) % 3 == 0 { Tree::Node(Box::new(Tree::Leaf(v[..len / 2].to_vec())), Box::new(Tree::Leaf(v[len / 2..].to_vec()))) } else { single };
+                let a: average::Min = eval_tree_mixed_quiet(&t, &mut k);
+                let mut k = path + 6;
+                let b: average::Max = eval_tree_mixed_quiet(&t, &mut k);
+                out.o("min", &[&fws(&v), &fw(a.min())]);
+                out.o("max", &[&fws(&v), &fw(b.max())]);
+                out.note("block-lengths");
+            }
+        }
+    }
+}
+
+/// `eval_tree_mixed` without correspondence lines (long leaves)
+fn eval_tree_mixed_quiet<E: Est>(t: &Tree, k: &mut usize) -> E {
+    match t {
+        Tree::Leaf(v) => {
+            *k += 1;
+            match *k % 7 {
+                0 => { let mut e = E::new(); for x in v { e.add(*x) } e }
+                1 => E::from_iter_val(v),
+                2 => E::from_iter_ref(v),
+                3 => { let mut e = E::new(); e.extend_val(v); e }
+                4 => { let mut e = E::default(); e.extend_ref(v); e }
+                5 => { let mut e = E::new(); let h = v.len() / 2; e.extend_val(&v[..h]); e.extend_ref(&v[h..]); e }
+                _ => { let mut e = E::from_iter_lazy(&v[..v.len() / 2]); e.extend_lazy(&v[v.len() / 2..], *k); e }
+            }
+        }
+        Tree::Node(l, r) => { let mut a: E = eval_tree_mixed_quiet(l, k); let b: E = eval_tree_mixed_quiet(r, k); a.merge(&b); a }
     }
 }
